@@ -27,6 +27,7 @@ type Engine struct {
 	Notes    []string
 	SpecLib  string
 	ModPkgs  []*packages.Package
+	fileHome map[string]*types.Package
 }
 
 var goEnv = []string{"GOFLAGS=-mod=mod", "GOPROXY=off", "GOSUMDB=off", "GOTOOLCHAIN=local"}
